@@ -30,6 +30,10 @@ CLAIMED = {
    text="Theorems (Props/C07.v): two identities compare equal exactly when their serialisations are equal; base32 address and base64 form depend on the identity only through (the hash of) its bytes. On generated identities of every destination/router key-type pair (with and without extra certificate payload) Hash/IdentHash are compared with crypto/sha256 of the input bytes, the address with an independent bit-level base32, Base64 is decoded back, and single-byte differences in key, padding and certificate regions must change Equals, hash and address.",
    design="8/C07", technique="Coq proof over executable model (hash external) + differential correspondence + independent SHA-256/base32 oracle",
    note=NOTE_COMMON + "SHA-256 is external (an input of the model's address function); injectivity of hash/address is up to SHA-256 collisions."),
+ "C08": dict(
+   text="PARTIAL. Theorems (Props/C08.v) over the provenance model (Model/Heap.v: each parsed field is a fresh copy or a view into the input): values whose fields are all fresh report the same bytes whatever is later written to the buffer; every structure named by the property is predicted to keep no view; for LeaseSet2 only the options mapping can follow the buffer. The correspondence parses from a real buffer, snapshots every argument-free accessor, overwrites the buffer (invert / 0xFF / random) and snapshots again; the model's prediction of which serialisations change is compared for all 24 parsers, incl. every supported key-type pair with non-zero padding; slices returned by accessors documented as copies are overwritten too.",
+   design="8/C08", technique="Coq proof over a provenance (copy-vs-view) model + buffer-overwrite correspondence against the implementation",
+   note=NOTE_COMMON + "Partial: Go's memory model is represented only by the provenance abstraction written from the code; the tie is the buffer-overwrite correspondence."),
  "C09": dict(
    text="Theorems (Props/C09.v): for EVERY integer code the library's deny sets (regenerated from the Go source) equal the specification's; every Destination/RouterIdentity returned by the modelled readers/constructors carries only permitted types; permitted types are never denied. All known codes x all known codes (plus sampled unknown codes) are pushed through every API path that yields a Destination or RouterIdentity.",
    design="8/C09", technique="Coq proof by reflection over translator-regenerated deny tables + exhaustive path sweep",
@@ -50,6 +54,10 @@ CLAIMED = {
    text="Theorems (Props/C13.v): digits/value inverse for any base; a full 3-byte (5-byte) group decodes back from its 4 (8) characters; every digit's character decodes to that digit and only alphabet characters decode at all; data after base32 padding is rejected; size-guarded variants reject empty and oversize input exactly at the limits and otherwise equal the unguarded functions. The decoders are modelled after encoding/base32|base64's control flow; model and implementation agree on ~92k cases incl. every byte value at every position of short encodings; encoders are compared with an independent bit-level encoder, exhaustively for inputs of length <= 2.",
    design="8/C13", technique="Coq proof (arithmetic group codec, alphabet reflection, guards) + differential correspondence + independent bit-level encoder oracle",
    note=NOTE_COMMON + "The whole-string round trip is stated (Definition) and decided by correspondence + oracle; Go's stdlib codecs are modelled, not verified. A truncated unpadded base32 quantum (1, 3 or 6 characters) is dropped silently by the stdlib and accepted (documented)."),
+ "C14": dict(
+   text="Theorems (Props/C14.v): Signature, OfflineSignature (for expires != 0), KeysAndCert (non-nil keys) and Certificate constructors produce values that satisfy their validators; each documented size/type defect is rejected by constructor and validator alike; the two recorded gaps are stated as *_refuted theorems with their witnesses. Every structure with a constructor and a Validate method is exercised with valid tuples and every single-defect variant: constructor success => Validate => serialise => parse with empty remainder => same bytes.",
+   design="8/C14", technique="Coq proof over executable constructor/validator model + differential correspondence + constructor/validate/round-trip oracle",
+   note=NOTE_COMMON + "Time-dependent expiry checks excluded. Known findings D11 (nil keys) and D21 (zero expires) are reported as KNOWN-FINDING; D16 and D17 were fixed."),
  "C15": dict(
    text="Theorems (Props/C15.v): published+expires exact for all 2^32 x 2^16 field values (Go's int64 Duration arithmetic modelled explicitly, no wrap); Lease / Lease2 / OfflineSignature / meta-entry conversions exact; NewLease2 stores in-range times exactly and rejects all others; newest/oldest expiration are members bounding all other leases; expired iff strictly past.",
    design="8/C15", technique="Coq proof (integer arithmetic with explicit int64 wrap) + differential correspondence + exactness oracle",
@@ -62,6 +70,10 @@ CLAIMED = {
    text="Theorems (Props/C19.v): integer constructors identical; exact-length signature constructor accepts exactly what the reader consumes completely (all type codes); destination/router-identity readers are the generic reader plus filter; key certificate from bytes = from certificate after ReadCertificate. ~25 pairs of entry points are run on the same generated/mutated inputs and compared (acceptance, serialisation, remainder).",
    design="8/C19", technique="Coq proof over executable model + pairwise differential oracle on the implementation",
    note=NOTE_COMMON),
+ "C20": dict(
+   text="Theorems (Props/C20.v): for the zero value of every modelled structure no serialiser or accessor reaches a Panic primitive, and NO Verify asks a single query of the signature scheme, so a zero value never verifies whatever the scheme. Exhaustive by reflection: every exported argument-free method of the zero value of every exported named type (the list is regenerated from the Go source on each run), and the same methods on the value each of 23 parsers returns together with an error, at every/many truncation points and for field mutations of well-formed encodings; none may panic, no Verify may succeed.",
+   design="8/C20", technique="Coq proof over zero values of the model + exhaustive reflection sweep over a type list regenerated from the source",
+   note=NOTE_COMMON + "A nil pointer returned together with an error is Go's 'no value' and is not touched (DESIGN.md C20). Partial values are covered by the sweep, not by the model (the model's parsers return no partial value)."),
 }
 PENDING = {}
 props = [json.loads(l) for l in open(os.path.join(ROOT, "properties.jsonl"))]
